@@ -415,3 +415,275 @@ theorem marketResolveO_obInv {s s' : State} {tk : Tk} {u ts stt : Nat} {w : List
   · exact hI.mkt x hx
 
 end Sge.Core
+
+namespace Sge.Core
+open Sge Sge.Genesis
+
+/-- a deposit extends the book: one new participation with no stake, all totals unchanged -/
+theorem addParticipation_ext (b : Book) (addr : Nat) (liq fee : Int) (hq : QInv b) :
+    Ext b (b.addParticipation addr liq fee).1 := by
+  have hS := hq.s
+  have hnoN : ∀ e ∈ b.pexps, e.idx ≠ b.partCount + 1 := by
+    intro e he
+    have := (hS.eKey e he).2
+    omega
+  have hnone : b.getPart (b.partCount + 1) = none := by
+    cases hc : b.getPart (b.partCount + 1) with
+    | none => rfl
+    | some p =>
+      have := ((hS.inRange_iff (b.partCount + 1)).mp ⟨p, hc⟩).2
+      omega
+  obtain ⟨f1, f2, f3, f4, f5⟩ := initFold_fields (b.partCount + 1) (b.setPart (b.newPart addr liq fee)).queues (b.setPart (b.newPart addr liq fee))
+  obtain ⟨g1, g2, g3, g4, g5, g6⟩ := freshFold (b.partCount + 1) (b.setPart (b.newPart addr liq fee)).queues b.pexps hS.sE
+    (sorted_qkey_pairwise hS.sQ) (fun e he hen => absurd hen (hnoN e he))
+  generalize hB : (b.addParticipation addr liq fee).1 = B
+  have eParts : B.parts = upsert Part.key (b.newPart addr liq fee) b.parts := by rw [← hB]; exact f1
+  have eHist : B.hist = b.hist := by rw [← hB]; exact f2
+  have eExps : B.pexps = (b.setPart (b.newPart addr liq fee)).queues.foldl
+      (fun ps oq => upsert PExp.key (freshExp oq.1 (b.partCount + 1)) ps) b.pexps := by rw [← hB]; exact f5
+  have hgp : ∀ i, i ≠ b.partCount + 1 → B.getPart i = b.getPart i := by
+    intro i hi
+    unfold Book.getPart; rw [eParts]
+    exact lookup_upsert_ne Part.key _ [i] b.parts (by
+      simpa [Part.key] using fun e : (b.newPart addr liq fee).idx = i => hi (e.symm.trans rfl))
+  have hgpN : B.getPart (b.partCount + 1) = some (b.newPart addr liq fee) := by
+    unfold Book.getPart; rw [eParts]
+    exact lookup_upsert_self Part.key (b.newPart addr liq fee) b.parts
+  refine ⟨by rw [← hB]; exact addParticipation_uid b addr liq fee, fun _ => by rw [← hB]; exact addParticipation_QInv b addr liq fee hq, ?_, ?_, ?_⟩
+  · intro i p' hp'
+    by_cases hi : i = b.partCount + 1
+    · rw [hi, hgpN] at hp'
+      cases hp'
+      exact Or.inr ⟨by rw [hi]; exact hnone, rfl⟩
+    · rw [hgp i hi] at hp'
+      exact Or.inl ⟨p', hp', rfl, rfl⟩
+  · intro i p hp
+    have hi : i ≠ b.partCount + 1 := by
+      have := ((hS.inRange_iff i).mp ⟨p, hp⟩).2
+      omega
+    exact ⟨p, by rw [hgp i hi]; exact hp, rfl⟩
+  · intro o i
+    by_cases hi : i = b.partCount + 1
+    · have hb0 : b.getExp o i = none := by
+        cases hc : b.getExp o i with
+        | none => rfl
+        | some e =>
+          obtain ⟨_, k2, k3⟩ := Book.getExp_key hc
+          exact absurd (k2.trans hi) (hnoN e k3)
+      unfold Book.totE Book.totB
+      rw [hb0, eHist]
+      cases hc : B.getExp o i with
+      | none => exact ⟨rfl, rfl⟩
+      | some e =>
+        obtain ⟨_, k2, k3⟩ := Book.getExp_key hc
+        rw [eExps, g2] at k3
+        rcases k3 with k3 | ⟨oq, _, rfl⟩
+        · exact absurd (k2.trans hi) (hnoN e k3)
+        · exact ⟨rfl, rfl⟩
+    · apply Book.tot_of_cur eHist o i
+      unfold Book.getExp
+      rw [eExps, g5 o i (Or.inl hi)]
+
+
+theorem Ext.of_stores {a b c : Book} (h : Ext a b) (hp : c.parts = b.parts) (he : c.pexps = b.pexps) (hh : c.hist = b.hist)
+    (hu : c.uid = b.uid) (hq : QInv a → QInv c) : Ext a c := by
+  have hgp : ∀ i, c.getPart i = b.getPart i := by intro i; unfold Book.getPart; rw [hp]
+  refine ⟨hu.trans h.uid, hq, ?_, ?_, ?_⟩
+  · intro i p' hp'
+    rw [hgp] at hp'
+    exact h.gp i p' hp'
+  · intro i p hp'
+    obtain ⟨p', a1, a2⟩ := h.gp' i p hp'
+    exact ⟨p', by rw [hgp]; exact a1, a2⟩
+  · intro o i
+    have := Book.totE_congr he hh o i
+    exact ⟨this.1.trans (h.tot o i).1, this.2.trans (h.tot o i).2⟩
+
+/-- a withdrawal only changes liquidity fields and queues -/
+theorem withdraw_ext (b b' : Book) (idx : Nat) (w : Int) (hq : QInv b) (hw : b.withdraw idx w = some b') : Ext b b' := by
+  have hqi := withdraw_QInv b b' idx w hq hw
+  unfold Book.withdraw at hw
+  cases hp : b.getPart idx with
+  | none => rw [hp] at hw; cases hw
+  | some p =>
+    rw [hp] at hw
+    simp only at hw
+    have hpi := Book.getPart_idx hp
+    have hx := Ext.setPart b { p with crl := p.crl - w, liq := p.liq - w } p (by show b.getPart p.idx = some p; rw [hpi]; exact hp) rfl rfl rfl
+    split at hw
+    · cases hw; exact hx
+    · have hq1 := hx.qinv hq
+      have hnd : ∀ oq ∈ (b.setPart { p with crl := p.crl - w, liq := p.liq - w }).queues, oq.2.Nodup := by
+        intro oq hoq
+        exact (hq1.q oq.1 oq.2 (Book.mem_getQueue hq1.s.sQ hoq)).1
+      rw [removeFromQueues_eq idx _ _ hnd] at hw
+      cases hw
+      obtain ⟨f1, f2, f3, _, _, f6⟩ := setQueueFold_fields (fun oq => oq.2.filter (fun j => j != idx))
+        (b.setPart { p with crl := p.crl - w, liq := p.liq - w }).queues (b.setPart { p with crl := p.crl - w, liq := p.liq - w })
+      exact hx.of_stores f1 f2 f3 f6 (fun _ => hqi)
+
+end Sge.Core
+
+namespace Sge.Core
+open Sge Sge.Genesis
+
+/-- a successful wager: the book is replaced by the one ProcessWager returns and the bet is stored -/
+theorem ObInv.wager {s s' : State} (h : ObInv s) (b b' : Book) (bet : Bet) (o : Nat) (fulfs : List Fulf)
+    (hb : getBook s b.uid = some b) (hu : b'.uid = b.uid) (hq' : QInv b')
+    (hrel : ∀ i p', b'.getPart i = some p' →
+      ∃ p0, b.getPart i = some p0 ∧ p0.addr = p'.addr ∧ p'.totalBet = p0.totalBet + sumBy (fbAt i) fulfs)
+    (htE : ∀ o' i, b'.totE o' i = b.totE o' i + if o' = o then sumBy (fpAt i) fulfs else 0)
+    (htB : ∀ o' i, b'.totB o' i = b.totB o' i + if o' = o then sumBy (fbAt i) fulfs else 0)
+    (hfw : ∀ fl ∈ fulfs, ∃ p0, b.getPart fl.idx = some p0 ∧ p0.addr = fl.addr)
+    (hkeep : ∀ i p0, b.getPart i = some p0 → ∃ p', b'.getPart i = some p' ∧ p'.addr = p0.addr)
+    (hbm : bet.market = b.uid) (hbo : bet.odds = o) (hbf : bet.fulfs = fulfs) (hbid : bet.id = s.betCount + 1)
+    (hfresh : lookup Bet.key (Bet.key bet) s.bets = none)
+    (hk : s'.books = upsert Book.key b' s.books) (ht : s'.bets = upsert Bet.key bet s.bets)
+    (hc : s'.betCount = s.betCount + 1) (hm : s'.markets = s.markets) : ObInv s' := by
+  obtain ⟨hbmem, _⟩ := getBook_eq_some s _ b hb
+  have hmem : ∀ x ∈ s'.books, x = b' ∨ (x ∈ s.books ∧ x.uid ≠ b.uid) := by
+    intro x hx
+    rw [hk] at hx
+    rcases (mem_upsert_iff Book.key b' x s.books h.sB).mp hx with e | ⟨e1, e2⟩
+    · exact Or.inl e
+    · exact Or.inr ⟨e1, by rw [← hu]; simpa [Book.key] using e2⟩
+  have hsum : ∀ g : Bet → Int, sumBy g s'.bets = sumBy g s.bets + g bet := by
+    intro g
+    rw [ht, sumBy_upsert Bet.key g bet s.bets h.sT, hfresh]
+    simp
+  have hgb : ∀ u, getBook s' u = if u = b.uid then some b' else getBook s u := by
+    intro u
+    unfold getBook
+    rw [hk]
+    by_cases hu' : u = b.uid
+    · simp only [hu', if_true]
+      rw [← hu]
+      exact lookup_upsert_self Book.key b' s.books
+    · simp only [hu', if_false]
+      exact lookup_upsert_ne Book.key b' [u] s.books (by simp [Book.key, hu]; exact fun c => hu' c.symm)
+  have hbs : ∀ u i, betStakeAt u i bet = if b.uid = u then sumBy (fbAt i) fulfs else 0 := by
+    intro u i; unfold betStakeAt; rw [hbm, hbf]
+    by_cases hc' : b.uid = u <;> simp [hc']
+  have hbp : ∀ u o' i, betProfitAt u o' i bet = if b.uid = u ∧ o = o' then sumBy (fpAt i) fulfs else 0 := by
+    intro u o' i; unfold betProfitAt; rw [hbm, hbo, hbf]
+    by_cases hc' : b.uid = u <;> by_cases hc2 : o = o' <;> simp [hc', hc2]
+  have hbso : ∀ u o' i, betStakeOAt u o' i bet = if b.uid = u ∧ o = o' then sumBy (fbAt i) fulfs else 0 := by
+    intro u o' i; unfold betStakeOAt; rw [hbm, hbo, hbf]
+    by_cases hc' : b.uid = u <;> by_cases hc2 : o = o' <;> simp [hc', hc2]
+  refine ⟨by rw [hk]; exact upsert_sorted Book.key b' s.books h.sB, by rw [ht]; exact upsert_sorted Bet.key bet s.bets h.sT,
+    ?_, by rw [hm]; exact h.mkt, ?_, ?_, ?_, ?_, ?_⟩
+  · intro t htm
+    rw [ht] at htm
+    rw [hc]
+    rcases (mem_upsert_iff Bet.key bet t s.bets h.sT).mp htm with rfl | ⟨htm, _⟩
+    · omega
+    · have := h.ids t htm; omega
+  · intro x hx
+    rcases hmem x hx with rfl | ⟨e, _⟩
+    · exact hq'
+    · exact h.qinv x e
+  · intro x hx i p' hp'
+    rw [hsum, hbs]
+    rcases hmem x hx with rfl | ⟨e, hne⟩
+    · obtain ⟨p0, a1, _, a3⟩ := hrel i p' hp'
+      rw [a3, h.tb b hbmem i p0 a1, hu, if_pos rfl]
+    · rw [h.tb x e i p' hp', if_neg (fun c => hne c.symm)]; omega
+  · intro x hx o' i
+    rw [hsum, hbp]
+    rcases hmem x hx with rfl | ⟨e, hne⟩
+    · rw [htE o' i, h.tE b hbmem o' i, hu]
+      by_cases ho : o' = o
+      · rw [if_pos ho, if_pos ⟨rfl, ho.symm⟩]
+      · rw [if_neg ho, if_neg (fun c => ho c.2.symm)]
+    · rw [h.tE x e o' i, if_neg (fun c => hne c.1.symm)]; omega
+  · intro x hx o' i
+    rw [hsum, hbso]
+    rcases hmem x hx with rfl | ⟨e, hne⟩
+    · rw [htB o' i, h.tB b hbmem o' i, hu]
+      by_cases ho : o' = o
+      · rw [if_pos ho, if_pos ⟨rfl, ho.symm⟩]
+      · rw [if_neg ho, if_neg (fun c => ho c.2.symm)]
+    · rw [h.tB x e o' i, if_neg (fun c => hne c.1.symm)]; omega
+  · intro t htm
+    rw [ht] at htm
+    rcases (mem_upsert_iff Bet.key bet t s.bets h.sT).mp htm with rfl | ⟨htm, _⟩
+    · refine ⟨b', by rw [hgb, hbm]; simp, ?_⟩
+      intro fl hfl
+      rw [hbf] at hfl
+      obtain ⟨p0, a1, a2⟩ := hfw fl hfl
+      obtain ⟨p', c1, c2⟩ := hkeep fl.idx p0 a1
+      exact ⟨p', c1, c2.trans a2⟩
+    · obtain ⟨bk, hbk, hfl⟩ := h.wf t htm
+      by_cases hmk : t.market = b.uid
+      · rw [hmk, hb] at hbk
+        cases hbk
+        refine ⟨b', by rw [hgb, hmk]; simp, ?_⟩
+        intro fl hflm
+        obtain ⟨p0, a1, a2⟩ := hfl fl hflm
+        obtain ⟨p', c1, c2⟩ := hkeep fl.idx p0 a1
+        exact ⟨p', c1, c2.trans a2⟩
+      · exact ⟨bk, by rw [hgb]; simp [hmk, hbk], hfl⟩
+
+end Sge.Core
+
+namespace Sge.Core
+open Sge Sge.Genesis
+
+theorem houseDepositO_obInv {s : State} {r : State × Nat} {c : Nat} {tk : Tk} {m : Nat} {a : Int} {pd : Nat}
+    (hI : ObInv s) (h : houseDepositO s c tk m a pd = some r) : ObInv r.1 := by
+  unfold houseDepositO at h
+  simp only [bind, Option.bind_eq_some_iff, pure, Option.some.injEq] at h
+  obtain ⟨_, _, _, _, _, _, s1, hs1, _, _, mk, _, b, hb, _, _, _, _, _, _, _, _, s2, hs2, s3, hs3, rfl⟩ := h
+  obtain ⟨gs, rfl⟩ := grantStep_shape hs1
+  obtain ⟨bal2, _, rfl⟩ := bankSend_shape hs2
+  obtain ⟨bal3, _, rfl⟩ := bankSend_shape hs3
+  have hb' : getBook s m = some b := hb
+  obtain ⟨hbm, hbu⟩ := getBook_mem hb'
+  have hx := addParticipation_ext b (depositFor c pd) (a - (s.params.houseFee.mulInt a).roundInt)
+    (s.params.houseFee.mulInt a).roundInt (hI.qinv b hbm)
+  have h1 := hI.setBook b _ (by rw [hx.uid, hbu]; exact hb') hx
+  exact h1.of_eq (by rfl) (by rfl) (by rfl) h1.mkt
+
+theorem houseWithdrawO_obInv {s s' : State} {c : Nat} {tk : Tk} {m i md : Nat} {a : Int} {pd : Nat}
+    (hI : ObInv s) (h : houseWithdrawO s c tk m i md a pd = some s') : ObInv s' := by
+  unfold houseWithdrawO at h
+  simp only [bind, Option.bind_eq_some_iff, pure, Option.some.injEq] at h
+  obtain ⟨_, _, _, _, _, _, _, _, _, _, d, _, b, hb, _, _, w, _, s1, hs1, p, _, s2, hs2, b', hb', rfl⟩ := h
+  obtain ⟨gs, rfl⟩ := grantStep_shape hs1
+  obtain ⟨bal2, _, rfl⟩ := bankSend_shape hs2
+  obtain ⟨hbm, hbu⟩ := getBook_mem hb
+  have hx := withdraw_ext b b' i w (hI.qinv b hbm) hb'
+  have h1 := hI.setBook b b' (by rw [hx.uid, hbu]; exact hb) hx
+  exact h1.of_eq (by rfl) (by rfl) (by rfl) h1.mkt
+
+theorem wagerO_obInv {s s' : State} {c : Nat} {tk : Tk} {u : Nat} {a : Int} {pl : WagerPayload}
+    (hI : ObInv s) (h : wagerO s c tk u a pl = some s') : ObInv s' := by
+  unfold wagerO at h
+  simp only [bind, Option.bind_eq_some_iff, pure, Option.some.injEq] at h
+  obtain ⟨_, _, _, _, _, _, _, _, _, _, _, _, _, _, m, hm, _, _, _, _, _, _, _, _, _, _, _, _, ov, _, _, _, b, hb, r, hr, s1, hs1, s2, hs2, rfl⟩ := h
+  obtain ⟨b', fulfs, taken⟩ := r
+  obtain ⟨bal1, _, rfl⟩ := bankSend_shape hs1
+  obtain ⟨bal2, _, rfl⟩ := bankSend_shape hs2
+  obtain ⟨hbm, hbu⟩ := getBook_mem hb
+  have hmo : m.odds.Nodup := (allDistinct_iff_nodup m.odds).mp (hI.mkt m (getMarket_mem hm))
+  have hq := hI.qinv b hbm
+  obtain ⟨w1, w2, w3, w4, w5, w6, w7⟩ := processWager_sums b b' pl.odds (s.betCount + 1) ov pl.mult m.odds pl.allOdds _ _ _ fulfs taken hq hmo hr
+  have hkeep : ∀ i p0, b.getPart i = some p0 → ∃ p', b'.getPart i = some p' ∧ p'.addr = p0.addr := by
+    intro i p0 hp0
+    have hr0 := (hq.s.inRange_iff i).mp ⟨p0, hp0⟩
+    rw [← w2] at hr0
+    obtain ⟨p', hp'⟩ := (w1.s.inRange_iff i).mpr hr0
+    obtain ⟨p0', a1, a2, _⟩ := w4 i p' hp'
+    rw [hp0] at a1
+    cases a1
+    exact ⟨p', hp', a2.symm⟩
+  have hfresh : lookup Bet.key (Bet.key (newBet s c u pl ov fulfs)) s.bets = none := by
+    apply lookup_none_of_forall
+    intro y hy hk
+    have := hI.ids y hy
+    simp only [Bet.key, newBet, List.cons.injEq, and_true] at hk
+    omega
+  exact hI.wager b b' (newBet s c u pl ov fulfs) pl.odds fulfs (by rw [hbu]; exact hb) w3 w1 w4 w5 w6 w7 hkeep
+    hbu.symm rfl rfl rfl hfresh (by rfl) (by rfl) (by rfl) (by rfl)
+
+end Sge.Core
